@@ -198,6 +198,23 @@ PROPS = {
         trusted=[T_FS, "strace fault injection lands on the intended call (verified per run by the INJECTED tag)", T_CRYPTO],
         partial=["failed_op_changes_nothing holds only up to the commit point: see known finding D10 (error-after-commit)"],
     ),
+    "C04": dict(
+        modules=["Whawty.Props.C04"],
+        suites=[("overlay", "v04")],
+        level_text="Each frontend is transport decoding composed with the store verdict: sasl_front, basic_front (split "
+                   "at the first colon), ldap_front (bind name up to the first '@'), api_front; error_is_denial. Lean "
+                   "theorems over the WebApi model. The real callback, a real saslauthd socket served by the agent, the "
+                   "real mux (basic-auth, /api/authenticate), ldapHandler.Bind and the built binary's authenticate "
+                   "command are compared with store.Dir.Authenticate on the same directory.",
+        rule="700 (6000) credential pairs over 32 names (existing users incl. names with '@', 255/256/257-byte passwords, "
+             "case/space variants, path aliases, bind-name forms) x right password / near misses (case, trim, truncation, "
+             "NUL, up to the first colon) / another user's password / empty / random bytes; 12 users with passwords "
+             "special in one transport (':' , non-BMP, JSON escapes, whitespace, NUL, invalid UTF-8).",
+        trusted=["encoding/json, net/http (BasicAuth parsing), glauth/ldap BER decoding, urfave/cli are transports "
+                 "trusted to be identity on their domains (tested, not proved)", T_CRYPTO],
+        partial=["LDAP is exercised at the handler (Bind callback), not over a BER connection",
+                 "listener combinations of the running binary are not enumerated"],
+    ),
     "C05": dict(
         modules=["Whawty.Props.C05"],
         suites=[("hdrv+pam", "c05")],
@@ -418,8 +435,18 @@ def build_agent_test(workdir):
     return out
 
 
+def build_agent_bin(workdir):
+    out = os.path.join(workdir, "whawty-auth")
+    r = subprocess.run(["go", "build", "-o", out, "./cmd/whawty-auth"], cwd=REPO, env=GOENV,
+                       stdout=subprocess.PIPE, stderr=subprocess.STDOUT, text=True)
+    if r.returncode != 0:
+        raise HarnessError("go build of cmd/whawty-auth failed:\n" + r.stdout[-3000:])
+    return out
+
+
 def run_overlay(suite, tier, seed, workdir, filt, nshards=None):
     exe = build_agent_test(workdir)
+    agent_bin = build_agent_bin(workdir)
     n = nshards or NPROC
 
     def shard(i):
@@ -428,7 +455,7 @@ def run_overlay(suite, tier, seed, workdir, filt, nshards=None):
         lp = os.path.join(workdir, "%s-%d.lines" % (suite, i))
         op = os.path.join(workdir, "%s-%d.out" % (suite, i))
         env = dict(GOENV, VERIF_SUITE=suite, VERIF_SEED=str(seed), VERIF_TIER=tier, VERIF_SHARD=str(i),
-                   VERIF_NSHARDS=str(n), VERIF_WORK=sw, VERIF_OUT=lp)
+                   VERIF_NSHARDS=str(n), VERIF_WORK=sw, VERIF_OUT=lp, VERIF_BIN=agent_bin)
         env.pop("WHAWTY_AUTH_DEBUG", None)
         r = subprocess.run([exe, "-test.run", "^TestVerif$", "-test.count=1", "-test.timeout=30m"], cwd=sw, env=env,
                            stdout=subprocess.PIPE, stderr=subprocess.STDOUT, text=True)
